@@ -278,6 +278,10 @@ C10Raw(sn, calls, res) ==
             /\ \A x \in RevNamed(sn, Name(c)) : x.owner = "none" /\ (x.sel \/ x.marker)
             /\ \E j \in 1..(k - 1) : IsFreshGet(calls[j]) /\ OK(calls[j])
             /\ sn.fresh.exists /\ sn.fresh.sameUid /\ ~sn.fresh.deleting /\ ~sn.set.deleting
+       \* an adoption that did not succeed confers nothing: whatever the answer was (Invalid because somebody else took the
+       \* pod meanwhile, a uid precondition, any other error), the pod is neither deleted nor rewritten by this reconcile
+       /\ (IsPodPatch(c) /\ Det(c) = "adopt" /\ ~OK(c)) =>
+            \A j \in (k + 1)..Len(calls) : ~((IsPodDelete(calls[j]) \/ IsPodUpdate(calls[j])) /\ Name(calls[j]) = Name(c))
        \* pods that stopped matching are released, never deleted; release only of own pods
        /\ (IsPodPatch(c) /\ Det(c) = "release") => \A p \in NamedPod(sn, Name(c)) : p.owner = "self" /\ ~(p.match /\ p.member)
        /\ IsPodDelete(c) => \A p \in NamedPod(sn, Name(c)) : IsPartOf(sn, p)
